@@ -576,6 +576,163 @@ fn form_fold_case() -> (usize, Option<Value>) {
 }
 
 
+// ------------------------------------------------------------------------------------------------------------------
+// C16: executable mirrors of spec/time.rs (the transcribed language of ISO_8601_REGEX and the proleptic Gregorian calendar)
+#[derive(Debug, PartialEq, Clone)]
+struct IsoGroupsM { year: Vec<u8>, month: Vec<u8>, day: Vec<u8>, hour: Vec<u8>, minute: Vec<u8>, second: Vec<u8>, frac: Option<Vec<u8>>, offset: Vec<u8> }
+fn is_digit(b: u8) -> bool { b.is_ascii_digit() }
+fn digits_at(s: &[u8], p: usize, n: usize) -> bool { p + n <= s.len() && s[p..p + n].iter().all(|b| is_digit(*b)) }
+fn opt_sep(s: &[u8], p: usize, c: u8) -> usize { if p < s.len() && s[p] == c { p + 1 } else { p } }
+fn two_in(s: &[u8], p: usize, lo: u32, hi: u32) -> bool { digits_at(s, p, 2) && { let v = (s[p] - b'0') as u32 * 10 + (s[p + 1] - b'0') as u32; lo <= v && v <= hi } }
+fn offset_lang(o: &[u8]) -> bool {
+    o == b"Z"
+        || (o.len() == 5 && (o[0] == b'+' || o[0] == b'-') && (o[1] == b'0' || o[1] == b'1') && is_digit(o[2]) && (b'0'..=b'5').contains(&o[3]) && is_digit(o[4]))
+        || (o.len() == 6 && (o[0] == b'+' || o[0] == b'-') && (o[1] == b'0' || o[1] == b'1') && is_digit(o[2]) && o[3] == b':' && (b'0'..=b'5').contains(&o[4]) && is_digit(o[5]))
+}
+fn iso_groups_m(s: &[u8]) -> Option<IsoGroupsM> {
+    let p1 = opt_sep(s, 4, b'-');
+    let p2 = opt_sep(s, p1 + 2, b'-');
+    let p3 = p2 + 2;
+    let p4 = p3 + 1;
+    let p5 = opt_sep(s, p4 + 2, b':');
+    let p6 = opt_sep(s, p5 + 2, b':');
+    let p7 = p6 + 2;
+    let has_frac = p7 + 1 < s.len() && (s[p7] == b'.' || s[p7] == b',') && is_digit(s[p7 + 1]);
+    let mut p8 = p7;
+    if has_frac { p8 = p7 + 1; while p8 < s.len() && is_digit(s[p8]) { p8 += 1; } }
+    if digits_at(s, 0, 4) && two_in(s, p1, 1, 12) && two_in(s, p2, 1, 31) && p3 < s.len() && s[p3] == b'T' && two_in(s, p4, 0, 23) && two_in(s, p5, 0, 59)
+        && two_in(s, p6, 0, 61) && p8 <= s.len() && offset_lang(&s[p8..])
+    {
+        Some(IsoGroupsM { year: s[0..4].to_vec(), month: s[p1..p1 + 2].to_vec(), day: s[p2..p2 + 2].to_vec(), hour: s[p4..p4 + 2].to_vec(), minute: s[p5..p5 + 2].to_vec(),
+            second: s[p6..p6 + 2].to_vec(), frac: if has_frac { Some(s[p7 + 1..p8].to_vec()) } else { None }, offset: s[p8..].to_vec() })
+    } else { None }
+}
+fn is_leap(y: i64) -> bool { y % 4 == 0 && (y % 100 != 0 || y % 400 == 0) }
+fn days_in_month(y: i64, m: i64) -> i64 { if m == 2 { if is_leap(y) { 29 } else { 28 } } else if m == 4 || m == 6 || m == 9 || m == 11 { 30 } else { 31 } }
+fn ymd_valid(y: i64, m: i64, d: i64) -> bool { (1..=12).contains(&m) && 1 <= d && d <= days_in_month(y, m) }
+fn ymd_days(y: i64, m: i64, d: i64) -> i64 {
+    let yy = if m <= 2 { y - 1 } else { y };
+    let era = yy.div_euclid(400);
+    let yoe = yy - era * 400;
+    let mp = if m > 2 { m - 3 } else { m + 9 };
+    let doy = (153 * mp + 2) / 5 + d - 1;
+    let doe = yoe * 365 + yoe / 4 - yoe / 100 + doy;
+    era * 146097 + doe - 719468
+}
+/// every (y, m, d) the pattern admits: chrono's from_ymd_opt and day count against the spec's calendar. COMPLETE over that domain.
+fn calendar_exhaustive() -> (usize, Option<Value>) {
+    let mut n = 0;
+    let epoch = chrono::NaiveDate::from_ymd_opt(1970, 1, 1).unwrap();
+    for y in 0..=9999i64 {
+        for m in 1..=12i64 {
+            for d in 1..=31i64 {
+                n += 1;
+                let real = chrono::NaiveDate::from_ymd_opt(y as i32, m as u32, d as u32);
+                if real.is_some() != ymd_valid(y, m, d) {
+                    return (n, Some(json!({"fn": "chrono::NaiveDate::from_ymd_opt", "y": y, "m": m, "d": d, "real_is_some": real.is_some(), "spec_ymd_valid": ymd_valid(y, m, d)})));
+                }
+                if let Some(dt) = real {
+                    let days = dt.signed_duration_since(epoch).num_days();
+                    if days != ymd_days(y, m, d) {
+                        return (n, Some(json!({"fn": "chrono day arithmetic", "y": y, "m": m, "d": d, "real_days_since_1970": days, "spec_ymd_days": ymd_days(y, m, d)})));
+                    }
+                }
+            }
+        }
+    }
+    (n, None)
+}
+fn iso_pattern_from_repo() -> Option<String> {
+    let repo = std::env::var("VERIF_REPO").unwrap_or_else(|_| "/repo".to_string());
+    let src = std::fs::read_to_string(format!("{}/src/chronoutil.rs", repo)).ok()?;
+    let i = src.find("Regex::new(")?;
+    let j = src[i..].find("r\"")? + i + 2;
+    let k = src[j..].find("\")")? + j;
+    Some(src[j..k].to_string())
+}
+/// the regex crate on the repository's exact pattern text against the transcription iso_groups, on a structured corpus. BOUNDED.
+fn regex_transcription_crosscheck(budget: usize) -> (usize, Option<Value>) {
+    let pat = match iso_pattern_from_repo() { Some(p) => p, None => return (0, Some(json!({"fn": "ISO_8601_REGEX", "error": "pattern literal not found in src/chronoutil.rs"}))) };
+    let re = match regex::Regex::new(&pat) { Ok(r) => r, Err(e) => return (0, Some(json!({"fn": "ISO_8601_REGEX", "error": format!("{}", e)}))) };
+    let mut n = 0usize;
+    let check = |s: &str| -> Option<Value> {
+        let real = re.captures(s).map(|c| IsoGroupsM {
+            year: c.name("year").unwrap().as_str().as_bytes().to_vec(), month: c.name("month").unwrap().as_str().as_bytes().to_vec(), day: c.name("day").unwrap().as_str().as_bytes().to_vec(),
+            hour: c.name("hour").unwrap().as_str().as_bytes().to_vec(), minute: c.name("minute").unwrap().as_str().as_bytes().to_vec(), second: c.name("second").unwrap().as_str().as_bytes().to_vec(),
+            frac: c.name("frac").map(|m| m.as_str().as_bytes().to_vec()), offset: c.name("offset").unwrap().as_str().as_bytes().to_vec() });
+        let spec = iso_groups_m(s.as_bytes());
+        if real != spec { Some(json!({"fn": "ISO_8601_REGEX.captures vs iso_groups", "input": s, "regex": format!("{:?}", real), "spec": format!("{:?}", spec)})) } else { None }
+    };
+    // 1. every two-digit value of each field, every separator combination, the others fixed
+    let seps = [("", ""), ("-", ""), ("", ":"), ("-", ":")];
+    for (ds, ts) in seps.iter() {
+        for field in 0..6 {
+            for v in 0..100u32 {
+                let mut f = [2015u32, 8, 30, 12, 36, 0];
+                if field == 0 { f[0] = v * 100 + 15; } else { f[field] = v; }
+                for off in ["Z", "+0530", "-05:30", ""] {
+                    for frac in ["", ".5", ",123456789012", "."] {
+                        n += 1;
+                        let s = format!("{:04}{}{:02}{}{:02}T{:02}{}{:02}{}{:02}{}{}", f[0], ds, f[1], ds, f[2], f[3], ts, f[4], ts, f[5], frac, off);
+                        if let Some(d) = check(&s) { return (n, Some(d)); }
+                    }
+                }
+            }
+        }
+    }
+    // 2. mixed separators (one present, the other not), every offset hour/minute, fraction lengths 0..=12
+    for d1 in ["", "-"] { for d2 in ["", "-"] { for t1 in ["", ":"] { for t2 in ["", ":"] {
+        for fl in 0..=12usize {
+            let frac = if fl == 0 { String::new() } else { format!(".{}", "7".repeat(fl)) };
+            n += 1;
+            let s = format!("2015{}08{}30T12{}36{}00{}Z", d1, d2, t1, t2, frac);
+            if let Some(d) = check(&s) { return (n, Some(d)); }
+        }
+    }}}}
+    for sign in ["+", "-"] { for hh in 0..=29u32 { for mm in 0..=99u32 { for colon in ["", ":"] {
+        n += 1;
+        let s = format!("20150830T123600{}{:02}{}{:02}", sign, hh, colon, mm);
+        if let Some(d) = check(&s) { return (n, Some(d)); }
+    }}}}
+    // 3. single-character insertions, deletions and substitutions of three base strings over the date-time alphabet (+ space, newline, x)
+    let alphabet: Vec<char> = "0123456789-:.,TZ+tz x\n".chars().collect();
+    for base in ["20150830T123600Z", "2015-08-30T12:36:00.25+05:30", "20150830T123600,5-0800"] {
+        let b: Vec<char> = base.chars().collect();
+        for i in 0..=b.len() {
+            for c in alphabet.iter() {
+                let mut ins = b.clone(); ins.insert(i, *c);
+                n += 1;
+                if let Some(d) = check(&ins.iter().collect::<String>()) { return (n, Some(d)); }
+                if i < b.len() {
+                    let mut sub = b.clone(); sub[i] = *c;
+                    n += 1;
+                    if let Some(d) = check(&sub.iter().collect::<String>()) { return (n, Some(d)); }
+                }
+            }
+            if i < b.len() {
+                let mut del = b.clone(); del.remove(i);
+                n += 1;
+                if let Some(d) = check(&del.iter().collect::<String>()) { return (n, Some(d)); }
+            }
+        }
+    }
+    // 4. pseudo-random strings over the alphabet and random two-point mutations
+    let mut x: u64 = 0x9E3779B97F4A7C15;
+    let mut rnd = move || { x ^= x << 13; x ^= x >> 7; x ^= x << 17; x };
+    while n < budget {
+        let base: Vec<char> = "2015-08-30T12:36:00.25+05:30".chars().collect();
+        let mut s = base.clone();
+        for _ in 0..(1 + rnd() % 3) {
+            let i = (rnd() as usize) % s.len();
+            match rnd() % 3 { 0 => { s[i] = alphabet[(rnd() as usize) % alphabet.len()]; } 1 => { s.remove(i); } _ => { s.insert(i, alphabet[(rnd() as usize) % alphabet.len()]); } }
+            if s.is_empty() { s.push('Z'); }
+        }
+        n += 1;
+        if let Some(d) = check(&s.iter().collect::<String>()) { return (n, Some(d)); }
+    }
+    (n, None)
+}
+
 /// C04 / C16: textual renderings of one instant, window boundaries, malformed dates (header carrier)
 fn search_time(what: &str) -> (usize, Option<Value>) {
     let mut n = 0;
@@ -1088,10 +1245,13 @@ fn main() {
             if pid == "C12" { rs.push(("content_type_and_fold_edges", search_content_type())); }
             if pid == "C15" { rs.push(("into_request_bytes", search_into_bytes())); }
             if pid == "C05" { rs.push(("requirement_mutators", search_requirement_mutators())); }
+            if pid == "C16" { rs.push(("calendar_exhaustive", calendar_exhaustive())); rs.push(("regex_transcription", regex_transcription_crosscheck(200_000))); }
             let cases: usize = rs.iter().map(|r| r.1 .0).sum();
             let found: Vec<Value> = rs.iter().filter_map(|r| r.1 .1.clone().map(|d| json!({"search": r.0, "disagreement": d}))).collect();
             json!({"ok": true, "found": !found.is_empty(), "cases": cases, "searches": rs.iter().map(|r| json!({"name": r.0, "cases": r.1.0})).collect::<Vec<_>>(), "disagreements": found,
-                   "bound": "fixed lists of Content-Type spellings / body lengths; stands in for get_content_type_and_charset, trim_ascii and the IntoRequestBytes impls, which are not under contract"})
+                   "bound": match pid {
+                       "C16" => "calendar_exhaustive: COMPLETE by native execution over every (y, m, d) the pattern admits (0000-9999 x 01-12 x 01-31) against chrono; regex_transcription: BOUNDED, 200 000 structured and mutated strings against the regex crate on the repository's exact pattern text",
+                       _ => "fixed lists of Content-Type spellings / body lengths / requirement-set constructions: the COMPILED get_content_type_and_charset, trim_ascii, IntoRequestBytes impls and VecSignedHeaderRequirements mutators against the same specs their extracted text is verified against" }})
         }
         Some("rerun") => {
             // re-run = run the searches again and report whether the recorded disagreement is still present
